@@ -1,5 +1,5 @@
 SPECIFICATION Spec
-CONSTANTS MsgSrc <- S6  MsgMid <- M6  MsgTot <- T6  CapSrc = 2  CapAll = 3  MaxDeliv = 3  MaxTick = 3
+CONSTANTS MsgSrc <- S6  MsgMid <- M6  MsgTot <- T6  CapSrc = 2  CapAll = 3  MaxDeliv = 4  MaxTick = 0
   GridP <- GP  GridMM <- GM
   DecOnComplete = TRUE  DupCheck = TRUE  TotalCheck = TRUE  CapStrict = TRUE  GcOn = TRUE
 INVARIANT NoViolation
